@@ -29,7 +29,9 @@ def _rec_1d(kind, m, ncell, lo, hi, extra):
              lo=core.ulps(xf[0], lo, scale), hi=core.ulps(xf[-1], hi, scale),
              xc=max([core.ulps(xc[i], (F(xf[i]) + F(xf[i + 1])) / 2, max(abs(xc[i]), scale * 1e-3)) for i in range(len(xc))] or [0])
              if len(xc) == len(xf) - 1 else core.ULP_CAP,
-             volpos=1 if (len(vol) == ncell and bool(np.all(vol > 0))) else 0,
+             # (cell sizes through both public ways in, vol() and dx(); centres through centers() and the xc attribute)
+             volpos=1 if (len(vol) == ncell and bool(np.all(vol > 0)) and np.array_equal(np.asarray(m.dx(), dtype=float), vol)
+                          and np.array_equal(np.asarray(getattr(m, "xc", xc), dtype=float), xc)) else 0,
              volsum=core.ulps(sum(F(v) for v in vol), F(xf[-1]) - F(xf[0]), max(abs(span), 1e-300)),
              len=core.ulps(m.length, F(xf[-1]) - F(xf[0]), max(abs(span), 1e-300)),
              avg=core.ulps(m.average(np.full(ncell, 2.75)), 2.75, 2.75) if len(vol) == ncell else core.ULP_CAP,
